@@ -292,6 +292,9 @@ type LVal struct {
 	Idx   string   // absolute element index (E space)
 	Arr   []string // indices into lifted leaves (array-typed fields), outermost first
 	ObjT  types.Type
+	Lim   string // E space: absolute index limit (off+len) of the slice the pointer was taken from
+	ByteView bool   // *uint8 view into an element of a []uint64 (little-endian)
+	BOff  string // byte offset of the view relative to element Idx
 }
 
 type SV struct {
@@ -301,6 +304,7 @@ type SV struct {
 	Bind []SV
 	Box  *SV // interface value boxing a non-pointer value
 	BoxT types.Type
+	POff string // uintptr / unsafe.Pointer derived from LV: byte offset added so far
 }
 
 func scalar(t string) SV { return SV{L: []string{t}} }
@@ -390,6 +394,17 @@ func ite(c, a, b string) string {
 	}
 	if c == "false" {
 		return b
+	}
+	// boolean branches: keep formulas in and/or/not shape (quantifiers stay in one polarity)
+	switch {
+	case a == "false":
+		return and(not(c), b)
+	case a == "true":
+		return or(c, b)
+	case b == "false":
+		return and(c, a)
+	case b == "true":
+		return or(not(c), a)
 	}
 	return "(ite " + c + " " + a + " " + b + ")"
 }
